@@ -88,7 +88,7 @@ def gates(chk, F):
                      "the conversion value is computed and shown only behind `top.unit == bottom.unit` of exactly these operands",
                      "a conversion result can be produced for operands whose dimensionalities were not compared")
         # rejecting edge -> conformance_err(ctx, top, bottom) -> QueryError::Conformance
-        ces = [(b2, t2) for b2, t2 in fn.calls() if "callee" in t2 and t2["callee"]["path"].endswith("runtime::eval::conformance_err")]
+        ces = [(b2, t2) for b2, t2 in fn.calls() if "callee" in t2 and t2["callee"]["path"].split("::")[-1] == "conformance_err"]
         match = [b2 for b2, t2 in ces if {val_key(fn.apath(t2["args"][1])), val_key(fn.apath(t2["args"][2]))} == owners]
         ok = False
         if match:
